@@ -67,6 +67,15 @@ def main(tier_):
                 calls.append(ro)
                 cases.append(dict(id="reopen|%d|%s|%s" % (gi, api, bname), tree=TREE, feat=feat, trace=False, calls=calls, close0=(g["num"] == 0),
                                   meta=dict(g=g, api=api, backend=bname, oflags=fl)))
+    # a thread with a private descriptor table (unshare(CLONE_FILES)) while the leader holds decoys
+    # at the same descriptor numbers: the handle is the *calling thread's* descriptor
+    for kind in ("file", "dir"):
+        for acc in ("RDONLY", "PATH") + (("RDWR",) if kind == "file" else ()):
+            for bname, feat in (("kernel", {"openat2": True}), ("emulated", {"openat2": False})):
+                fl = ACC[acc] | (O["NONBLOCK"] if acc != "PATH" else 0)
+                cases.append(dict(id="thread|%s|%s|%s" % (kind, acc, bname), tree=TREE + [dict(id=20, p=2, n="decoy", k="file")], feat=feat, trace=False, cold=True,
+                                  calls=[dict(op="reopen_in_thread", path="d/t_" + kind, decoy="root/decoy", oflags=fl)],
+                                  meta=dict(g=dict(kind=kind, acc=acc, extra="", num=999, hist="thread-private-fd-table", expect=dict(ok=True, ino=1)), api="rust", backend=bname, oflags=fl, thread=True)))
     cases.sort(key=lambda c: json.dumps(c["feat"]))
     res = run_pv(cases, jobs=12, tag="C09")
     stats = collections.Counter()
@@ -78,6 +87,9 @@ def main(tier_):
             continue
         rs = r["out"][0]["results"]
         h, x = rs[0], rs[-1]
+        if c["meta"].get("thread"):
+            h = x.get("handle") or {}
+            h.setdefault("ok", bool(h.get("id")))
         if not h.get("ok") or x.get("skip"):
             stats["skipped"] += 1
             continue
